@@ -31,7 +31,7 @@ def _fix(plan):
     if "generator" in sp:
         if sp["generator"]["kind"] == "nbc_local" and n < 3:
             sp["generator"]["kind"] = "nbc"
-        if sp["generator"]["kind"] in ("best", "whole_population"):
+        if sp["generator"]["kind"] in ("best", "whole_population", "promising_first"):
             sp["deme_filters"] = [f for f in sp["deme_filters"] if f["kind"] != "nbc_far_enough"]
     lv = plan["levels"]
     if lv[0]["engine"] in ("cma", "local"):
